@@ -34,12 +34,18 @@ class HReq:
         self.method, self.uri, self.form, self.headers, self.body = method, uri, form, headers or {}, body
 
 
+PK = {}
+
+
 class User:
     def __init__(self, uid):
         self.uid = uid
 
     def get_user_id(self):
         return self.uid
+
+    # what the Django integration reads (impl/django_provider.py); a primary key may be falsy (0): PK maps user names to such keys
+    pk = property(lambda self: PK.get(self.uid, self.uid))
 
 
 class Client(_M):
